@@ -348,6 +348,46 @@ func (b *bufferComp) Impl(c Case) (out []string) {
 				hb[i] = strconv.Itoa(id)
 			}
 			out = append(out, r.state(waitFeeder("waiting"), " hb="+strings.Join(hb, "+")))
+		case "buf stopdrain":
+			// a fast consumer working off a backlog, then the stop: how much more is handed out afterwards?
+			if r == nil || r.buf == nil || r.destroyD != nil {
+				out = append(out, "not-enabled")
+				continue
+			}
+			k := int(o.Ints[0])
+			d := make(chan struct{})
+			r.destroyD = d
+			got, after := 0, 0
+			var taken []base.LogChunk
+			stopCalled := false
+			consumerDone := make(chan struct{})
+			go func(bf base.ChunkBufferer) {
+				defer close(consumerDone)
+				for ch := range r.args.InputChannel {
+					if stopCalled {
+						after++
+					} else {
+						got++
+						if got == k {
+							stopCalled = true
+							go func() { bf.Destroy(); close(d) }() // the consumer keeps going at full speed
+						}
+					}
+					taken = append(taken, ch) // confirmed afterwards: the consumer itself is as fast as a channel receive
+				}
+			}(r.buf)
+			select {
+			case <-consumerDone:
+				for _, ch := range taken {
+					r.args.OnChunkConsumed(ch)
+				}
+			case <-time.After(20 * time.Second):
+			}
+			if !stopCalled {
+				// the backlog was smaller than k: stop now
+				go func(bf base.ChunkBufferer) { bf.Destroy(); close(d) }(r.buf)
+			}
+			out = append(out, fmt.Sprintf("stopdrain got=%d after=%d cap=%d", got, after, defs.BufferMaxNumChunksInMemory))
 		case "buf finish":
 			if r.destroyD == nil {
 				out = append(out, "not-enabled")
@@ -429,6 +469,18 @@ func (b *bufferComp) Oracle(c Case, impl []string) string {
 			return "the buffer panicked: " + line
 		}
 		if line == "not-enabled" || line == "bad-op" || strings.HasPrefix(line, "planted=") {
+			continue
+		}
+		if strings.HasPrefix(line, "stopdrain ") {
+			var got, after, capN int
+			fmt.Sscanf(line, "stopdrain got=%d after=%d cap=%d", &got, &after, &capN)
+			if after > capN+40 {
+				return fmt.Sprintf("[key=buffer-stop-backlog] %d chunks were handed to the consumer after the stop request (window %d): the work of a shutdown grows with the backlog", after, capN)
+			}
+			for _, id := range order {
+				confirmed[id] = true
+			}
+			destroyedSeen = true
 			continue
 		}
 		if strings.HasPrefix(line, "drained=") {
@@ -648,6 +700,9 @@ func (b *bufferComp) Generate(rng *rand.Rand, n int, emit func(Case)) {
 	// a backlog larger than any batch size a directory scan might use
 	emit(Case{Ops: []Op{{Name: "bufr plant", Ints: []int64{2600, rng.Int63()}}, {Name: "bufr new", Ints: []int64{8, 5000, 1 << 30, 1, 0}},
 		{Name: "bufr drain"}, {Name: "bufr destroy"}, {Name: "bufr finish"}}, Tag: "backlog"})
+	// a stop while a fast consumer works off a large backlog
+	emit(Case{Ops: []Op{{Name: "bufr plant", Ints: []int64{2500, rng.Int63()}}, {Name: "bufr new", Ints: []int64{256, 5000, 1 << 30, 1, 0}},
+		{Name: "bufr stopdrain", Ints: []int64{300}}, {Name: "bufr finish"}}, Tag: "stop-backlog"})
 	// shutdown with the feeder and the consumer saving at the same time: a wide window of chunks that were never spilled,
 	// half of them held by the consumer; everything before the shutdown is compared with the model, the shutdown itself
 	// (whose outcome depends on the interleaving) is judged by the oracle: conservation and byte identity of every file
